@@ -12,7 +12,7 @@ def build(tier, seed):
     if tier == "quick":
         entries = [e for e in entries if e["tags"] & {"int", "bits", "data", "seq", "opt", "ref", "refsel"}]
         # delimiter search-window variants are C06's subject; keep one per marker here
-        entries = [e for e in entries if not ("marker" in e["tags"] and "sbl" in e["tags"])]
+        entries = [e for e in entries if not ("marker" in e["tags"] and "sbl" in e["tags"]) and "G" not in e["tags"]]
     obs = obligations("C04", entries, tier, "H.h_strict(SPEC, CLS, raw, off, KEY)", min_len=0,
                       assertion="real accepts => strict reference accepts with identical values (each value decoded from "
                                 "exactly its declared number of bytes inside the input); unpack(silent=True) is None exactly "
